@@ -17,6 +17,10 @@ RULE = (
     "serialize_and_sign calls == artifacts. distinct = (n packages, n conda, pre-existing class, extra fields, key); non-trivial = "
     ">= 1 artifact."
 )
+RULE_ADDENDUM = (
+    'Additional: a third of the cases go through the command-line function; histories with a failed earlier attempt on the same path; different files signed concurrently with different keys.'
+)
+RULE = RULE + " " + RULE_ADDENDUM
 LIMITS = ["artifact names are distinct across both sections (as the property states)", "documents up to ~1000 artifacts per section"]
 ASSUMPTIONS = ["reference signer and serializer"]
 
